@@ -24,7 +24,6 @@ use kira::listener::ListenerHandle;
 use kira::modulator::lfo::{LfoBuilder, LfoHandle};
 use kira::modulator::tweener::{TweenerBuilder, TweenerHandle};
 use kira::modulator::{Modulator, ModulatorBuilder, ModulatorId};
-use kira::sound::static_sound::StaticSoundSettings;
 use kira::sound::streaming::{Decoder, StreamingSoundData};
 use kira::sound::{PlaybackState, Sound, SoundData};
 use kira::track::{MainTrackBuilder, SendTrackBuilder, SendTrackHandle, SpatialTrackBuilder, SpatialTrackHandle, TrackBuilder, TrackHandle};
@@ -807,6 +806,7 @@ impl World {
 
 	/// one creation attempt that is meant to fail (`Kind::fail_shape`); `i` (the position of the operation
 	/// in the history) selects among the ways a sound can fail.  Panics are caught here.
+	#[allow(unreachable_patterns)]
 	fn create_failing(&mut self, i: usize) -> FailRes {
 		let sh = self.sh.clone();
 		let own_panic = |o: &Outcome<FailRes>| matches!(o, Outcome::Panic(_)) && last_panic().starts_with(PROBE_PANIC);
@@ -1960,7 +1960,7 @@ fn stress(kind: Kind, cap: usize, iters: usize, rng: &mut Rng) -> StressOut {
 		Kind::Modulator => mgr.num_modulators(),
 		_ => mgr.main_track().num_sounds(),
 	};
-	let mut create = |mgr: &mut kira::AudioManager<SBackend>| -> Outcome<Option<(Option<(i128, i128)>, Arc<AtomicBool>)>> {
+	let create = |mgr: &mut kira::AudioManager<SBackend>| -> Outcome<Option<(Option<(i128, i128)>, Arc<AtomicBool>)>> {
 		let sh = sh.clone();
 		catch(move || match kind {
 			Kind::Modulator => match mgr.add_modulator(ProbeModBuilder { sh: sh.clone(), fail: false }) {
@@ -2307,6 +2307,120 @@ fn f27_replay(kind: Kind) -> F27Out {
 	out
 }
 
+// ------------------------------------------------------------------------------------------------
+// kira's own sounds: a static sound that plays to its end, one that is stopped through its handle, one
+// whose handle is simply dropped (which must NOT remove it) — on the main track, a sub-track and a spatial
+// sub-track of sound capacity 2 (monitors only: when `finished()` turns true is C03/C04's business; here:
+// once the handle says Stopped, the NEXT callback removes the sound and frees the slot)
+// ------------------------------------------------------------------------------------------------
+
+fn real_sounds(which: usize) -> Result<String, String> {
+	const CAP: usize = 2;
+	let name = ["main track", "sub-track", "spatial sub-track"][which];
+	let mut main = MainTrackBuilder::new();
+	if which == 0 {
+		main = main.sound_capacity(CAP);
+	}
+	let mut mgr = manager(1000, 16, Capacities::default(), main);
+	let listener = mgr.add_listener(zero3(), quat_id()).map_err(|_| "aux listener".to_string())?;
+	let mut plain = None;
+	let mut spatial = None;
+	match which {
+		1 => plain = Some(mgr.add_sub_track(TrackBuilder::new().sound_capacity(CAP)).map_err(|_| "aux track".to_string())?),
+		2 => spatial = Some(mgr.add_spatial_sub_track(listener.id(), zero3(), SpatialTrackBuilder::new().sound_capacity(CAP)).map_err(|_| "aux track".to_string())?),
+		_ => {}
+	}
+	macro_rules! play {
+		($d:expr) => {
+			match which {
+				1 => plain.as_mut().unwrap().play($d),
+				2 => spatial.as_mut().unwrap().play($d),
+				_ => mgr.play($d),
+			}
+		};
+	}
+	macro_rules! count {
+		() => {
+			match which {
+				1 => plain.as_ref().unwrap().num_sounds(),
+				2 => spatial.as_ref().unwrap().num_sounds(),
+				_ => mgr.main_track().num_sounds(),
+			}
+		};
+	}
+	let data = |frames: usize| sound_from_frames(1000, vec![Frame::new(0.25, 0.25); frames]);
+	let cb = |mgr: &mut Mgr| -> Result<(), String> {
+		let b = mgr.backend_mut();
+		match std::thread::scope(|sc| sc.spawn(move || catch(|| {
+			b.callback(4, 2);
+		})).join()) {
+			Ok(Outcome::Ok(())) => Ok(()),
+			_ => Err(format!("{name}: a callback panicked: {}", last_panic())),
+		}
+	};
+	let mut log = String::new();
+	// A plays 6 frames to its end; B is long
+	let a = play!(data(6)).map_err(|_| format!("{name}: play A refused"))?;
+	let mut b = play!(data(100000)).map_err(|_| format!("{name}: play B refused"))?;
+	if !matches!(play!(data(8)), Err(PlaySoundError::SoundLimitReached)) {
+		return Err(format!("{name}: a third sound was not refused with SoundLimitReached on a track of capacity {CAP}"));
+	}
+	if count!() != 2 {
+		return Err(format!("{name}: count {} after two plays", count!()));
+	}
+	// until the handle says Stopped
+	let mut n = 0;
+	while a.state() != PlaybackState::Stopped {
+		cb(&mut mgr)?;
+		n += 1;
+		if count!() != 2 {
+			return Err(format!("{name}: sound A (6 frames) was removed (count {}) before its handle said Stopped, after {n} callbacks of 4 frames", count!()));
+		}
+		if n > 50 {
+			return Err(format!("{name}: sound A (6 frames) never reached Stopped"));
+		}
+	}
+	log.push_str(&format!("A Stopped after {n} callbacks; "));
+	// the property: finished -> removed and the slot free at the next callback
+	cb(&mut mgr)?;
+	if count!() != 1 {
+		return Err(format!("{name}: sound A finished (handle: Stopped), one more callback ran, and the count is still {}", count!()));
+	}
+	let c = play!(data(100000)).map_err(|_| format!("{name}: the slot of the finished sound A was not free for reuse after the next callback"))?;
+	if count!() != 2 {
+		return Err(format!("{name}: count {} after re-using the slot", count!()));
+	}
+	cb(&mut mgr)?;
+	// stop() through the handle, no fade
+	b.stop(Tween { duration: std::time::Duration::ZERO, ..Default::default() });
+	let mut n = 0;
+	while b.state() != PlaybackState::Stopped {
+		cb(&mut mgr)?;
+		n += 1;
+		if n > 50 {
+			return Err(format!("{name}: sound B never reached Stopped after stop()"));
+		}
+	}
+	log.push_str(&format!("B Stopped {n} callbacks after stop(); "));
+	cb(&mut mgr)?;
+	if count!() != 1 {
+		return Err(format!("{name}: sound B was stopped (handle: Stopped), one more callback ran, and the count is still {}", count!()));
+	}
+	// dropping the handle of a playing static sound does not remove it
+	drop(c);
+	cb(&mut mgr)?;
+	cb(&mut mgr)?;
+	if count!() != 1 {
+		return Err(format!("{name}: count {} two callbacks after the handle of the playing sound C was dropped (a static sound outlives its handle)", count!()));
+	}
+	let _d = play!(data(100000)).map_err(|_| format!("{name}: play D refused with one sound alive"))?;
+	if !matches!(play!(data(8)), Err(PlaySoundError::SoundLimitReached)) {
+		return Err(format!("{name}: a sound was not refused on a full track at the end"));
+	}
+	drop(a);
+	Ok(log)
+}
+
 fn parse_ops(s: &str) -> Vec<Op> {
 	s.split(';')
 		.filter_map(|t| {
@@ -2378,7 +2492,7 @@ pub fn run(args: &Args) {
 		}
 		// (a') exhaustive, with failing creations
 		if kind.fail_shape().is_some() {
-			let lf = kind.exhaustive_fail_len() + if args.thorough { 2 } else { 0 };
+			let lf = kind.exhaustive_fail_len() + if args.thorough { 1 } else { 0 };
 			for cap in [1usize, 2] {
 				for len in 1..=lf {
 					for ops in enumerate(kind, cap, len, true) {
@@ -2439,6 +2553,14 @@ pub fn run(args: &Args) {
 			for ops in [&one, &two] {
 				emit(&mut s, &mut seen, kind, 2, ops);
 			}
+		}
+	}
+	// (g) kira's own sounds finishing / being stopped / losing their handle
+	for which in 0..3 {
+		s.eval_only("real_sounds");
+		match real_sounds(which) {
+			Ok(log) => s.notes.push(format!("static sounds on the {}: {}", ["main track", "sub-track", "spatial sub-track"][which], log)),
+			Err(what) => s.fail(format!("real_sounds {which}"), what, None),
 		}
 	}
 	// (e) F27 regression: the racy schedule replayed deterministically, compared with the model
